@@ -4,6 +4,7 @@ package p11
 import (
 	"fmt"
 	"math"
+	"strings"
 	"testing"
 
 	"pgregory.net/rapid"
@@ -237,6 +238,11 @@ func TestReplay(t *testing.T) {
 	var c eng.ProgCase
 	if _, err := h.LoadReplay(path, &c); err != nil {
 		t.Fatalf("cannot load replay: %v", err)
+	}
+	if strings.HasPrefix(c.Note, "string-store|") {
+		fl, _ := checkStringStore(c)
+		ctx.FinishReplay(t, fl)
+		return
 	}
 	fl, _, _ := eng.Check(c)
 	ctx.FinishReplay(t, fl)
